@@ -109,3 +109,21 @@ Definition sec_run (fm : aclfile_mode) (im : init_mode) (ops : list secop) : sec
 Definition same_security (s s' : secstate) : Prop :=
   (forall c, lookup c (mem_clients s') = lookup c (mem_clients s))
   /\ (forall c, lookup c (mem_acls s') = lookup c (mem_acls s)).
+
+(** ** The management API as callers see it: what the histories denote *)
+
+(** the registry and the ACL store a history of management operations denotes (a restart denotes nothing) *)
+Definition spec_step (st : list (string * unit) * list (string * list ac)) (o : secop)
+  : list (string * unit) * list (string * list ac) :=
+  let '(cl, acls) := st in
+  match o with
+  | OpRegister c => (set_key c tt cl, acls)
+  | OpUnregister c => (remove_key c cl, remove_key c acls)
+  | OpSetAcl c l => (cl, set_key c l acls)
+  | OpDelAcl c => (cl, remove_key c acls)
+  | OpRestart => (cl, acls)
+  end.
+Definition spec_store (ops : list secop) : list (string * unit) * list (string * list ac) :=
+  fold_left spec_step ops ([], []).
+Definition spec_state (ops : list secop) : secstate :=
+  {| mem_clients := fst (spec_store ops); mem_acls := snd (spec_store ops); disk_clients := None; disk_acls := None |}.
